@@ -95,6 +95,9 @@ pub enum Op {
     /// the array embedded in a frame of `n` modules on every side (fill 0 = light, 1 = dark, 2 = alternating):
     /// a captured quiet zone / a crop taken too wide
     GeoFrame { n: u32, fill: u32 },
+    /// a margin of `n` modules on ONE side (0 = right, 1 = left, 2 = bottom, 3 = top; fill as for GeoFrame): rows padded
+    /// to a byte or word boundary, a crop that is off on one side
+    GeoMargin { side: u32, n: u32, fill: u32 },
     /// widths that do not fit 32 bits (see `huge_width`)
     GeoWidthHuge { code: u32 },
     /// the array replaced by an all-light one whose LENGTH is a catalogue pixel count plus 2^32 (see `huge_blank`);
@@ -402,6 +405,37 @@ pub fn apply_s4(faults: &[Fault], px: &mut Vec<bool>, width: &mut usize, fired: 
                     fired[fi] = true;
                 }
             }
+            Op::GeoMargin { side, n: mg, fill } => {
+                let mg = *mg as usize;
+                if rect && mg > 0 && w > 0 {
+                    let (l, r, tp, bt) = match side {
+                        0 => (0, mg, 0, 0),
+                        1 => (mg, 0, 0, 0),
+                        2 => (0, 0, 0, mg),
+                        _ => (0, 0, mg, 0),
+                    };
+                    let nw = w + l + r;
+                    let nh = h + tp + bt;
+                    let mut out = Vec::with_capacity(nw * nh);
+                    for rr in 0..nh {
+                        for cc in 0..nw {
+                            let inside = rr >= tp && rr < tp + h && cc >= l && cc < l + w;
+                            out.push(if inside {
+                                px[(rr - tp) * w + (cc - l)]
+                            } else {
+                                match fill {
+                                    0 => false,
+                                    1 => true,
+                                    _ => (rr + cc) % 2 == 0,
+                                }
+                            });
+                        }
+                    }
+                    *px = out;
+                    *width = nw;
+                    fired[fi] = true;
+                }
+            }
             Op::GeoColDup { c } => {
                 let c = *c as usize;
                 if rect && c < w {
@@ -515,6 +549,7 @@ fn op_to_json(op: &Op) -> J {
         Op::GeoColDrop { c } => a("geo_col_drop", vec![J::i(*c as usize)]),
         Op::GeoColDup { c } => a("geo_col_dup", vec![J::i(*c as usize)]),
         Op::GeoFrame { n, fill } => a("geo_frame", vec![J::i(*n as usize), J::i(*fill as usize)]),
+        Op::GeoMargin { side, n, fill } => a("geo_margin", vec![J::i(*side as usize), J::i(*n as usize), J::i(*fill as usize)]),
         Op::GeoWidth { w } => a("geo_width", vec![J::i(*w as usize)]),
         Op::GeoWidthHuge { code } => a("geo_width_huge", vec![J::i(*code as usize)]),
         Op::GeoHugeBlank { code } => a("geo_huge_blank", vec![J::i(*code as usize)]),
@@ -564,6 +599,7 @@ fn op_from_json(j: &J) -> Result<Op, String> {
         "geo_col_drop" => Op::GeoColDrop { c: n(1)? },
         "geo_col_dup" => Op::GeoColDup { c: n(1)? },
         "geo_frame" => Op::GeoFrame { n: n(1)?, fill: n(2)? },
+        "geo_margin" => Op::GeoMargin { side: n(1)?, n: n(2)?, fill: n(3)? },
         "geo_width" => Op::GeoWidth { w: n(1)? },
         "geo_width_huge" => Op::GeoWidthHuge { code: n(1)? },
         "geo_huge_blank" => Op::GeoHugeBlank { code: n(1)? },
@@ -746,6 +782,7 @@ impl Trace {
                 Op::GeoColDrop { c } => h.u32s(&[13, *c]),
                 Op::GeoColDup { c } => h.u32s(&[14, *c]),
                 Op::GeoFrame { n, fill } => h.u32s(&[114, *n, *fill]),
+                Op::GeoMargin { side, n, fill } => h.u32s(&[117, *side, *n, *fill]),
                 Op::GeoWidth { w } => h.u32s(&[15, *w]),
                 Op::GeoWidthHuge { code } => h.u32s(&[115, *code]),
                 Op::GeoHugeBlank { code } => h.u32s(&[116, *code]),
